@@ -237,10 +237,14 @@ def _collect(ctx, out, spec, mono, frag, lay, cases: list, tag: str) -> None:
     base = {"op": "reads.run", "tree": tjson, "fuel": 2 * n + 8, "noid": noid, "refs": refs, "attrs": attrs, "queries": queries}
     cases.append({"req": dict(base, cut=cut, order=order), "impl": impl_f, "kinds": kinds, "spec": spec, "layout": "split",
                   "opaque": opaque, "keep": (keep_f, elems)})
-    cases.append({"req": dict(base, cut=[], order=[]), "impl": impl_m, "kinds": kinds, "spec": spec, "layout": "mono",
-                  "opaque": opaque, "keep": None})
     out.extra.setdefault("reads_layouts", 0)
     out.extra["reads_layouts"] += 1
+    if ctx.thorough or out.extra["reads_layouts"] % 3 == 1:
+        # the monolithic twin answers the same whatever the cuts are: every third layout (with its own sample) in the quick tier
+        cases.append({"req": dict(base, cut=[], order=[]), "impl": impl_m, "kinds": kinds, "spec": spec, "layout": "mono",
+                      "opaque": opaque, "keep": None})
+        out.extra.setdefault("reads_mono_twins", 0)
+        out.extra["reads_mono_twins"] += 1
     out.extra.setdefault("reads_opaque_attributes", 0)
     out.extra["reads_opaque_attributes"] += len(opaque)
 
